@@ -312,6 +312,7 @@ class GroupCoordinatorModel:
                             # it has just discovered stay unassigned until the next rebalance,
                             # whatever the client does.  Oracles need to know.
                             g.quiet_leader_swaps = getattr(g, "quiet_leader_swaps", 0) + 1
+                            g.quiet_swap_generations = getattr(g, "quiet_swap_generations", set()) | {g.generation}
                             w.probe("static_leader_replaced_without_rebalance")
                         return self._join_reply(g, m, respond, req)
                     m.join_cb = (respond, req)
